@@ -254,21 +254,25 @@ def candidates(chk, P):
         dom = f.dominators()
         gb |= {x for x in dom if g in dom[x]}
     pushes = [(b, i, e) for b, i, e in f.calls() if e.get("fn", "").endswith("::push_back")]
-    names = sorted(var_of(call_obj(e)) or "?" for _, _, e in pushes)
+    # the three output arrays by parameter position (never by name): candidates, timeEstimates, transitions are the non-const Array_& parameters, in that order
+    outs = [p_[0] for p_ in f.d["params"] if "Array_<" in p_[1] and p_[1].rstrip().endswith("&") and not p_[1].lstrip().startswith("const")]
+    role = dict(zip(outs, ("candidates", "timeEstimates", "transitions"))) if len(outs) == 3 else {}
+    chk.judge(len(role) == 3, "REACHDEF", "three-output-arrays", f.loc, "output array parameters: %s" % outs)
+    names = sorted(role.get(var_of(call_obj(e)), "?") for _, _, e in pushes)
     chk.judge(names == ["candidates", "timeEstimates", "transitions"], "REACHDEF", "three-parallel-pushes", f.loc, "index, time estimate and transition pushed together: %s" % names)
     for b, i, e in pushes:
-        chk.judge(b in gb, "REACHDEF", "push(%s):only-if-transition-seen" % var_of(call_obj(e)), "%s:%d" % (f.file, e["line"]),
+        chk.judge(b in gb, "REACHDEF", "push(%s):only-if-transition-seen" % role.get(var_of(call_obj(e)), "?"), "%s:%d" % (f.file, e["line"]),
                   "a candidate is listed only when its trigger changed sign in a monitored direction")
     for b, i, e in pushes:
-        who = var_of(call_obj(e))
+        who = role.get(var_of(call_obj(e)))
         a = call_args(e)[0]
         if who == "candidates":
             chk.judge(var_of(a) == ev, "REACHDEF", "push(candidates)=e", "%s:%d" % (f.file, e["line"]), "the event index pushed is e")
         if who == "transitions":
             chk.judge(var_of(a) == tv, "REACHDEF", "push(transitions)=transitionSeen", "%s:%d" % (f.file, e["line"]), "the transition pushed is the one computed for e")
     # the three output arrays are cleared first
-    for nm in ("candidates", "timeEstimates", "transitions"):
-        cl = [(b, i, e) for b, i, e in f.calls() if e.get("fn", "").endswith("::clear") and var_of(call_obj(e)) == nm]
+    for pv, nm in sorted(role.items(), key=lambda kv: kv[1]):
+        cl = [(b, i, e) for b, i, e in f.calls() if e.get("fn", "").endswith("::clear") and var_of(call_obj(e)) == pv]
         ok = bool(cl) and all(f.path_exists(None, lambda q, pe=pe: q is pe, lambda q, c0=cl[0][2]: q is c0) is None for _, _, pe in pushes)
         chk.judge(ok, "REACHDEF", "clear(%s)-first" % nm, f.loc, "outputs cleared before candidates are collected")
 
